@@ -48,6 +48,12 @@ class MergeAsof(Merge):
             _convert_to_list(self.right_by) or [],
         )
 
+    def _filter_passthrough_available(self, parent, dependents):
+        # The rule inherited from Merge decides by join kind (``how``), which
+        # an asof join does not have: every left row is paired with its nearest
+        # right row, so filtering the right input changes the pairs
+        return False
+
     @functools.cached_property
     def _kwargs(self):
         return {
